@@ -29,10 +29,11 @@ const (
 	FMulti
 	FDumpNoBackfill // Dump with FeedNoBackfill: nothing to deliver, ends at once
 	FMultiDump      // Dump over both collections through Bucket.StartDCPFeed: the coalesced done channel closes
+	FCheckpoint     // backfill + live with a checkpoint prefix: when the store shuts down under it, its last checkpoint write fails
 	NFeedKinds
 )
 
-var feedKindNames = []string{"live", "backfill+live", "dump", "multi-collection", "dump-nobackfill", "multi-collection-dump"}
+var feedKindNames = []string{"live", "backfill+live", "dump", "multi-collection", "dump-nobackfill", "multi-collection-dump", "checkpointed"}
 
 func isDumpKind(k int) bool { return k == FDump || k == FDumpNoBackfill || k == FMultiDump }
 
@@ -136,6 +137,9 @@ func (s *FeedScenario) Run(tmp string, r *rng.R) {
 			err = colls[f.handle][f.coll].StartDCPFeed(ctx, args, f.cb, nil)
 		case FBackfillLive:
 			args.Backfill = 0
+			err = colls[f.handle][f.coll].StartDCPFeed(ctx, args, f.cb, nil)
+		case FCheckpoint:
+			args.Backfill, args.CheckpointPrefix = sgbucket.FeedResume, fmt.Sprintf("cp:f%d", i)
 			err = colls[f.handle][f.coll].StartDCPFeed(ctx, args, f.cb, nil)
 		case FDump:
 			args.Backfill, args.Dump = 0, true
@@ -311,6 +315,27 @@ func (s *FeedScenario) Run(tmp string, r *rng.R) {
 						f.termed, f.expectEnded = true, true // its collection is gone
 					}
 				}
+			case a == "dropYclosed":
+				// DropDataStore through a handle that has been closed: whatever it answers (the bucket-closed error is
+				// C13's business), a call that is refused must not have ended the collection's feeds
+				h := -1
+				for i := 0; i < 2; i++ {
+					if !open[i] && open[1-i] {
+						h = i
+					}
+				}
+				if h < 0 || yDropped || deleted {
+					return
+				}
+				s.Count("drops_tried_through_a_closed_handle", 1)
+				if err := handles[h].DropDataStore(collY); err == nil {
+					yDropped = true
+					for _, f := range feeds {
+						if f.coll == 1 && f.kind != FMulti && f.kind != FMultiDump && !f.termed {
+							f.termed, f.expectEnded = true, true
+						}
+					}
+				}
 			case a == "close0" || a == "close1":
 				h := int(a[5] - '0')
 				if !open[h] {
@@ -407,6 +432,12 @@ func feedGoroutines() int {
 // QueuedTerminator: a feed with many events still queued has its terminator closed while its callback is parked
 // on the first event. After the callback returns the feed must end without working through the queue.
 func QueuedTerminator(tmp string, disk bool, kind int, docs int) (callsAfter int, msg string) {
+	return QueuedEnd(tmp, disk, kind, docs, "terminator")
+}
+
+// QueuedEnd is the same for the other ways a feed ends under a parked callback: how = "terminator", "delete"
+// (CloseAndDelete) or "close-last" (Close of the only handle of an on-disk bucket).
+func QueuedEnd(tmp string, disk bool, kind int, docs int, how string) (callsAfter int, msg string) {
 	name := fmt.Sprintf("qt%d_%d", os.Getpid(), feedSerial.Add(1))
 	url, dir := rosmar.InMemoryURL, ""
 	if disk {
@@ -434,6 +465,9 @@ func QueuedTerminator(tmp string, disk bool, kind int, docs int) (callsAfter int
 	var total, after atomic.Int64
 	var released atomic.Bool
 	args := sgbucket.FeedArguments{ID: "qt", Backfill: 0, Dump: kind == FDump, Terminator: term, DoneChan: done}
+	if kind == FCheckpoint {
+		args.Backfill, args.CheckpointPrefix = sgbucket.FeedResume, "cp:qt"
+	}
 	err = col.StartDCPFeed(ctx, args, func(e sgbucket.FeedEvent) bool {
 		if e.Opcode != sgbucket.FeedOpMutation {
 			return true
@@ -453,18 +487,111 @@ func QueuedTerminator(tmp string, disk bool, kind int, docs int) (callsAfter int
 	case <-time.After(feedBound):
 		return 0, "setup|the feed delivered nothing"
 	}
-	close(term)
-	time.Sleep(150 * time.Millisecond) // let the feed notice its terminator
+	switch how {
+	case "terminator":
+		close(term)
+	case "delete":
+		if err := b.CloseAndDelete(ctx); err != nil {
+			return 0, "setup|CloseAndDelete: " + err.Error()
+		}
+	case "close-last":
+		b.Close(ctx)
+	}
+	time.Sleep(150 * time.Millisecond) // let the feed notice
 	released.Store(true)
 	close(release)
 	select {
 	case <-done:
 	case <-time.After(feedBound):
-		return int(after.Load()), fmt.Sprintf("not-ended|%s feed did not end within %s of its terminator closing (callback parked meanwhile)", feedKindNames[kind], feedBound)
+		return int(after.Load()), fmt.Sprintf("not-ended|%s|%s feed did not end within %s of %s (callback parked meanwhile)", how, feedKindNames[kind], feedBound, howText(how))
 	}
 	time.Sleep(20 * time.Millisecond)
 	if n := after.Load(); n > 2 {
-		return int(n), fmt.Sprintf("callbacks-after-terminator|%s feed: the callback was invoked %d more times after the terminator had been closed (%d documents were queued)", feedKindNames[kind], n, docs)
+		return int(n), fmt.Sprintf("callbacks-after-%s|%s feed: the callback was invoked %d more times after %s (%d documents were queued)", how, feedKindNames[kind], n, howText(how), docs)
 	}
 	return int(after.Load()), ""
+}
+
+func howText(how string) string {
+	switch how {
+	case "delete":
+		return "CloseAndDelete had returned"
+	case "close-last":
+		return "the last handle of the on-disk bucket had been closed"
+	}
+	return "the terminator had been closed"
+}
+
+// RecreatedCollectionSweep: an expiry sweep runs while the first incarnation of collection Y exists; Y is dropped
+// and created again and a live feed is started on the new incarnation; then a document of another collection
+// expires. Nobody ended the feed: it must still deliver a fresh write to Y (and its done channel stay open).
+func RecreatedCollectionSweep(tmp string, disk bool) string {
+	name := fmt.Sprintf("rs%d_%d", os.Getpid(), feedSerial.Add(1))
+	url, dir := rosmar.InMemoryURL, ""
+	if disk {
+		dir = filepath.Join(tmp, name)
+		url = "rosmar://" + dir
+	}
+	ctx := context.Background()
+	b, err := rosmar.OpenBucket(url, name, rosmar.CreateNew)
+	if err != nil {
+		return "setup|" + err.Error()
+	}
+	defer func() {
+		func() { defer func() { _ = recover() }(); _ = b.CloseAndDelete(ctx) }()
+		if dir != "" {
+			_ = os.RemoveAll(dir)
+		}
+	}()
+	expire := func(c sgbucket.DataStore, key string) string {
+		if err := c.SetRaw(key, 1, nil, []byte("x")); err != nil {
+			return "setup|" + err.Error()
+		}
+		for t := 0; t < 1200; t++ {
+			if _, _, err := c.GetRaw(key); err != nil {
+				return ""
+			}
+			time.Sleep(5 * time.Millisecond)
+		}
+		return "setup|a document with a one-second expiry was still readable after 6 s"
+	}
+	y1, err := b.NamedDataStore(collY)
+	if err != nil {
+		return "setup|" + err.Error()
+	}
+	if m := expire(y1, "first"); m != "" {
+		return m
+	}
+	if err := b.DropDataStore(collY); err != nil {
+		return "setup|" + err.Error()
+	}
+	y2, err := b.NamedDataStore(collY)
+	if err != nil {
+		return "setup|" + err.Error()
+	}
+	f := &lfeed{term: make(chan bool), done: make(chan struct{}), got: map[string]bool{}}
+	defer close(f.term)
+	if err := y2.(*rosmar.Collection).StartDCPFeed(ctx, sgbucket.FeedArguments{ID: "rs", Backfill: sgbucket.FeedNoBackfill, Terminator: f.term, DoneChan: f.done}, f.cb, nil); err != nil {
+		return "setup|" + err.Error()
+	}
+	if m := expire(b.DefaultDataStore(), "second"); m != "" {
+		return m
+	}
+	time.Sleep(50 * time.Millisecond)
+	select {
+	case <-f.done:
+		return "done-early|the done channel of a live feed on a re-created collection closed when a document of another collection expired; nobody had ended the feed"
+	default:
+	}
+	if err := y2.SetRaw("tok", 0, nil, []byte("t")); err != nil {
+		return "setup|" + err.Error()
+	}
+	deadline := time.Now().Add(feedBound)
+	for !f.has("tok") && time.Now().Before(deadline) {
+		time.Sleep(time.Millisecond)
+	}
+	if !f.has("tok") {
+		return fmt.Sprintf("starved|a live feed on a re-created collection did not receive a fresh write within %s after an expiry sweep had run", feedBound)
+	}
+	return ""
 }
